@@ -160,7 +160,9 @@ impl LSPFileReader {
         let mut map = HashMap::new();
         let mut base_file: Option<Uuid> = None;
         for doc in docs {
-            let uuid = Uuid::new_v4();
+            // Documents are numbered in the order given (0 is "no file"), so
+            // that ordering diagnostics by file gives the same result every run.
+            let uuid = Uuid::from_u128(map.len() as u128 + 1);
             base_file.get_or_insert(uuid);
             map.insert(uuid, doc);
         }
